@@ -22,7 +22,7 @@ def sh(cmd, **kw):
 
 sh("git checkout -- . && git clean -fdq -e SEED -e target")
 dsrc = open(demo).read()
-crate = "simple-mdns" if "simple_mdns" in dsrc else "simple-dns"
+crate = "simple-mdns" if ("simple_mdns" in dsrc or "simple-mdns/tests/seed_demo_%s" % k in meta_txt) else "simple-dns"
 tname = "seed_demo_%s" % k
 unit = bool(re.search(r"\b(crate|super)::", dsrc)) or ("mod seed_demo_" in meta_txt and "src/seed_demo_" in meta_txt)
 if unit and "simple-mdns/src" in meta_txt:
